@@ -17,7 +17,13 @@ RULE = (
     "available-variable context where '.' occurs; and histories on ONE parser object: constructed with a flag subset, "
     "optionally used, then re-configured by every sequence of up to 2 (thorough 3) set_feature_flags calls (on the parser "
     "or its operator resolver, subset as FeatureFlags value or set of strings, all 8 subsets), with or without parses in "
-    "between, probing four formulas after the changes against a fresh parser with the flags in force.  Every parse runs the real DefaultFormulaParser.get_terms under a "
+    "between, probing four formulas after the changes against a fresh parser with the flags in force; every flag subset "
+    "in every accepted spelling (FeatureFlags value, lower/upper-case name sets, 'all'/'default'/'none') through every entry "
+    "point (constructor, constructor with a pre-configured resolver, set_feature_flags on parser / resolver) with pickle and "
+    "deepcopy round-trips as events; ~100 valid Python fragments with unusual callee / node shapes in 11 operand positions "
+    "(both sides of '~'); every ordered selection of 2-4 back-quoted names that sanitize to one alias; 28 constructs repeated "
+    "10/100/1000/3000 times (long inputs); every string of length <= 3 (thorough 4) over 17 delicate code points (NUL, lone "
+    "surrogates, astral, BOM, NBSP, bidi).  Every parse runs the real DefaultFormulaParser.get_terms under a "
     "5 s watchdog.  Non-trivial = a distinct (string, configuration) that reaches the parser with at least two "
     "reference-lexer tokens or a quote/bracket context."
 )
@@ -562,20 +568,20 @@ def subchecks(tier, seed):
     if quick:
         res_forms = [("resolver", "enum", "set"), ("resolver", "set", "enum"), ("resolver", "enum", "enum"), ("resolver", "names", "SET")]
     subs.append(Sub("flag-configs", drv_flag_histories,
-                    {"init_flags": FLAG_SETS, "init_forms": SPEC_FORMS + res_forms, "min_depth": 0, "depth": 1 if quick else 2,
+                    {"init_flags": FLAG_SETS, "init_forms": SPEC_FORMS + res_forms, "min_depth": 0, "depth": 1,
                      "step_forms": SPEC_FORMS, "subsets": FLAG_SETS, "subsets_deep": FLAG_SETS}, shard_depth=3,
                     bounds={"constructed_with": "all 8 subsets x {FeatureFlags value, set of lower-case names, set of upper-case names, "
                                                 "set using 'all'/'default'/'none'} given to DefaultFormulaParser(feature_flags=...), and "
                                                 + ("4" if quick else "all 16") + " spelling pairs of DefaultFormulaParser(operator_resolver=DefaultOperatorResolver("
                                                 "feature_flags=S), feature_flags=S)",
-                            "events": "0..1" if quick else "0..2",
+                            "events": "0..1",
                             "each_event": "set_feature_flags on {parser, resolver} x 4 spellings x 8 subsets, or pickle round-trip, or deepcopy",
                             "parse_before_first_event": [False, True], "probe_formulas": PROBES}))
     subs.append(Sub("flag-histories", drv_flag_histories,
-                    {"init_flags": [ALL_FLAGS, (), FLAG_SETS[0]] if quick else FLAG_SETS, "init_forms": ["enum"] if quick else ["enum", "set"],
+                    {"init_flags": [ALL_FLAGS, (), FLAG_SETS[0]] if quick else FLAG_SETS, "init_forms": ["enum"],
                      "min_depth": 2, "depth": 2 if quick else 3, "step_forms": ["enum", "set"], "subsets": FLAG_SETS,
-                     "subsets_deep": [ALL_FLAGS, ()]}, shard_depth=4,
-                    bounds={"constructed_with": "ALL, NONE, DEFAULT" if quick else "all 8 subsets, as FeatureFlags value and as set of strings",
+                     "subsets_deep": [ALL_FLAGS, ()]}, shard_depth=6,
+                    bounds={"constructed_with": "ALL, NONE, DEFAULT" if quick else "all 8 subsets (as FeatureFlags value; the other spellings are in flag-configs)",
                             "parse_before_first_event": [False, True], "events": "2" if quick else "2..3",
                             "each_event": "set_feature_flags on {parser, parser.operator_resolver} x {FeatureFlags value, set of str} x "
                                           "all 8 subsets (histories of 3 events: the subsets ALL and NONE), or pickle round-trip, or deepcopy",
